@@ -74,4 +74,40 @@ example : (profIter (⟨[1, 2], some .itemsNotDefinedInternal⟩ : Stream Nat) n
 example : (profIter (⟨[1, 2], some .valueError⟩ : Stream Nat) none ⟨0, 0⟩).2 = ⟨3, 1⟩ := by decide
 example : (profIter (⟨[1, 2, 3], none⟩ : Stream Nat) (some 2) ⟨5, 1⟩) = (⟨[1, 2], none⟩, ⟨7, 1⟩) := rfl
 
+/-! ### the generator loop, step by step -/
+
+/-- The closed form `profIter` (what the theorems above are about, and what the correspondence check
+    runs) IS the loop: for every input stream, every demand and every counter state. -/
+theorem C20_loop_eq_closed_form {α} (vals : List α) (err : Option Err) (d : Option Nat) (c : Counters) :
+    profLoop vals err d c = profIter ⟨vals, err⟩ d c := by
+  induction vals generalizing d c with
+  | nil =>
+    cases d with
+    | none => cases err <;> simp [profLoop, profIter]
+    | some k =>
+      cases k with
+      | zero => cases err <;> simp [profLoop, profIter]
+      | succ k => cases err <;> simp [profLoop, profIter]
+  | cons x xs ih =>
+    cases d with
+    | none =>
+      rw [profLoop]
+      · simp only [Option.map_none, ih]
+        cases err <;> simp [profIter] <;> omega
+      · intro h; cases h
+    | some k =>
+      cases k with
+      | zero => simp [profLoop, profIter]
+      | succ k =>
+        rw [profLoop]
+        · simp only [Option.map_some, Nat.add_sub_cancel, ih]
+          by_cases hk : k ≤ xs.length
+          · simp [profIter, hk]; omega
+          · cases err <;> simp [profIter, hk] <;> omega
+        · intro h; cases h
+
+example : profLoop [1, 2, 3] (some .valueError) none ⟨0, 0⟩ = (⟨[1, 2, 3], some .valueError⟩, ⟨4, 1⟩) := by rfl
+example : profLoop [1, 2, 3] none none ⟨0, 0⟩ = ((⟨[1, 2, 3], none⟩ : Stream Nat), ⟨3, 0⟩) := by rfl
+example : profLoop [1, 2, 3] none (some 2) ⟨0, 0⟩ = ((⟨[1, 2], none⟩ : Stream Nat), ⟨2, 0⟩) := by rfl
+
 end LazyDs
